@@ -4,6 +4,7 @@ pub mod c15;
 pub mod c16unit;
 pub mod c17;
 pub mod c19;
+pub mod concprops;
 pub mod crashprops;
 pub mod seqprops;
 
@@ -45,6 +46,8 @@ pub fn dispatch(id: &str, tier: Tier, seed: u64, replay: Option<&str>) -> i32 {
         "C17" => c17::run(tier, seed, replay),
         "C09" => c09::run(tier, seed, replay),
         "C19" => c19::run(tier, seed, replay),
+        "C07" => concprops::run("C07", tier, seed, replay),
+        "C08" => concprops::run("C08", tier, seed, replay),
         "C15" => c15::run(tier, seed, replay),
         "C02" => crashprops::run("C02", tier, seed, replay),
         "C03" => crashprops::run("C03", tier, seed, replay),
